@@ -45,7 +45,16 @@ def gen_sig(rng, kind):
     for i, p in enumerate(sig["kwonly"]):
         if rng.random() < 0.5:
             p["default"] = ["o", 110 + i]
+    # misuse (C19): a parameter with a reserved name - passed positionally, by keyword or left to its default
+    if rng.random() < RESERVED_PARAMS:
+        every = sig["posonly"] + sig["poskw"] + sig["kwonly"]
+        if every:
+            rng.choice(every)["name"] = rng.choice(["result", "OLD"])
     return sig
+
+
+# probability that a generated signature carries a parameter named `result` / `OLD` (raised by the C19 check)
+RESERVED_PARAMS = 0.03
 
 
 def gen_call(rng, sig):
@@ -109,7 +118,7 @@ class Gen:
         if self_only:
             params = [["self", False]] if rng.random() < 0.8 else []
         else:
-            pool = list(avail)
+            pool = list(dict.fromkeys(avail))      # a parameter may itself be called result / OLD
             k = rng.choice([0, 1, 1, 2, 2, 3])
             chosen = rng.sample(pool, min(k, len(pool))) if pool else []
             params = [[n, rng.random() < 0.2] for n in chosen]
@@ -128,7 +137,7 @@ class Gen:
         elif r < 0.75:
             error = ["instance", exc_tag(rng)]
         else:
-            pool = [n for n in avail]
+            pool = list(dict.fromkeys(avail))
             k = rng.choice([0, 1, 1, 2])
             en = rng.sample(pool, min(k, len(pool))) if pool else []
             if rng.random() < 0.05:
